@@ -9,10 +9,10 @@ KERNELS = ['wf_ref_sphere', 'wf_image_to_xp', 'wf_get_path_length', 'wf_tilt_xy'
            'wf_opd_rms', 'wf_rms_vs_field']
 THEOREMS = ['C09_' + n for n in (
     'ref_sphere_through_pupil ref_sphere_needs_single_ray image_to_xp_on_sphere image_to_xp_branch '
-    'image_to_xp_inside image_to_xp_chief path_length_is_path_to_sphere_partial tilt_dist_is_tilt_xy '
-    'tilt_difference_angle launch_parallel launch_offset launch_dir_y tilt_vs_launch tilt_matches_launch_partial '
+    'image_to_xp_inside image_to_xp_chief path_length_is_path_to_sphere tilt_dist_is_tilt_xy '
+    'tilt_difference_angle launch_parallel launch_offset launch_dir_y tilt_matches_launch '
     'finite_object_common_point height_fields_no_correction chief_sample_zero field_data_from_samples '
-    'field_data_chief_zero opd_definition_infinite_partial opd_definition_finite_partial '
+    'field_data_chief_zero opd_definition_infinite opd_definition_finite '
     'sample_points_on_reference_sphere rms_is_rms rms_nonneg rms_zero_iff fan_is_slice '
     'opd_difference_is_mean_abs_dev opd_difference_nonneg opd_difference_constant image_to_xp_miss '
     'image_to_xp_finite_sound generate_data_entry rms_vs_field_table rms_vs_field_shape').split()]
@@ -38,9 +38,6 @@ RULE = ('kernel cases: seeded record columns of 2-12 surfaces, sphere centres ne
         'non-positive field sets, vignetting factors), infinite+angle and finite+height, all 8 pupil distributions, real and '
         'virtual exit pupils; non-trivial = finite reported OPD on a distinct (lens, field, wavelength, distribution)')
 PARTIAL = [
-    'opd_definition_*_partial: the reported sample is the specification\'s path difference under the hypotheses vx = vy = 0 at the '
-    'field, fields.max_y_field = fields.max_field, object- and image-space index 1; the implementation violates the property '
-    'exactly where these fail (four listed findings, refuted in coq/Findings/F_C09.v)',
     'the optical path recorded by the trace (sum of n*length) is C02\'s theorem, here a hypothesis of the model (ropd)',
     'exact zero for the chief ray is proved over the reals (and holds bit-for-bit in binary64 through closed-form surfaces: '
     'checked by the oracle); through Newton-iterated surfaces it holds to the stopping tolerance only',
